@@ -536,6 +536,12 @@ func (*Thread).BuildStackTracePrepend
   props C32
   uses cntTrBound, cntTrMono
   requires wfFrames(vm) && base != nil
+  // what has been built before the promise's own trace is appended
+  cut before append#3: shape: freshSlice(stackTraceSlice) && sliceptr(stackTraceSlice) > 0 && len(stackTraceSlice) == old(cntTr(vm, cfIdx(vm))) + ite(old(vm.bytecode) != nil, 1, 0) && cap(stackTraceSlice) == old(len(*base)) + old(cfIdx(vm)) + 1 && 0 <= old(cntTr(vm, cfIdx(vm))) && old(cntTr(vm, cfIdx(vm))) <= old(cfIdx(vm)) && base != nil
+  cut before append#3: base: *base == old(*base) && len(*base) == old(len(*base)) && cap(*base) == old(cap(*base)) && (forall k int :: 0 <= k && k < len(*base) ==> same(elem(*base, k), old(elem(*base, k))))
+  cut before append#3: frames: forall j int :: 0 <= j && j < old(cfIdx(vm)) && old(inclFrame(vm, j)) ==> elem(stackTraceSlice, old(cntTr(vm, j))).LineNumber == old(frameLine(&vm.callFrames[j])) && elem(stackTraceSlice, old(cntTr(vm, j))).TailCallCounter == old(elem(vm.callFrames, j).tailCallCounter)
+  cut before append#3: current: old(vm.bytecode) != nil ==> elem(stackTraceSlice, old(cntTr(vm, cfIdx(vm)))).LineNumber == old(vm.bytecode.LineInfoList.GetLineNumber(vm.ip - sliceptr(vm.bytecode.Instructions) - 1))
+  cut before append#3: vmkept: vm.callFrames == old(vm.callFrames) && vm.cfp == old(vm.cfp) && vm.bytecode == old(vm.bytecode) && vm.ip == old(vm.ip) && (forall j int :: 0 <= j && j < len(vm.callFrames) ==> elem(vm.callFrames, j).isNative == old(elem(vm.callFrames, j).isNative) && elem(vm.callFrames, j).bytecode == old(elem(vm.callFrames, j).bytecode) && elem(vm.callFrames, j).ip == old(elem(vm.callFrames, j).ip) && elem(vm.callFrames, j).localCount == old(elem(vm.callFrames, j).localCount) && elem(vm.callFrames, j).tailCallCounter == old(elem(vm.callFrames, j).tailCallCounter))
   ensures fresh: ret != nil && fresh(ret) && freshSlice(*ret)
   ensures base: *base == old(*base) && (forall k int :: 0 <= k && k < len(*base) ==> same(elem(*base, k), old(elem(*base, k))))
   ensures count: len(*ret) == old(cntTr(vm, cfIdx(vm))) + ite(old(vm.bytecode) != nil, 1, 0) + old(len(*base))
@@ -555,6 +561,10 @@ func (*Thread).BuildStackTrace
   props C32
   uses cntTrBound, cntTrMono
   requires wfFrames(vm)
+  cut before return#1: shape: freshSlice(stackTraceSlice) && sliceptr(stackTraceSlice) > 0 && len(stackTraceSlice) == old(cntTr(vm, cfIdx(vm))) + ite(old(vm.bytecode) != nil, 1, 0)
+  cut before return#1: frames: forall j int :: 0 <= j && j < old(cfIdx(vm)) && old(inclFrame(vm, j)) ==> elem(stackTraceSlice, old(cntTr(vm, j))).LineNumber == old(frameLine(&vm.callFrames[j])) && elem(stackTraceSlice, old(cntTr(vm, j))).TailCallCounter == old(elem(vm.callFrames, j).tailCallCounter)
+  cut before return#1: current: old(vm.bytecode) != nil ==> elem(stackTraceSlice, old(cntTr(vm, cfIdx(vm)))).LineNumber == old(vm.bytecode.LineInfoList.GetLineNumber(vm.ip - sliceptr(vm.bytecode.Instructions) - 1))
+  cut before return#1: vmkept: vm.callFrames == old(vm.callFrames) && vm.cfp == old(vm.cfp) && vm.bytecode == old(vm.bytecode) && vm.ip == old(vm.ip) && (forall j int :: 0 <= j && j < len(vm.callFrames) ==> elem(vm.callFrames, j).isNative == old(elem(vm.callFrames, j).isNative) && elem(vm.callFrames, j).bytecode == old(elem(vm.callFrames, j).bytecode) && elem(vm.callFrames, j).ip == old(elem(vm.callFrames, j).ip) && elem(vm.callFrames, j).localCount == old(elem(vm.callFrames, j).localCount) && elem(vm.callFrames, j).tailCallCounter == old(elem(vm.callFrames, j).tailCallCounter))
   ensures fresh: ret != nil && fresh(ret) && freshSlice(*ret)
   ensures count: len(*ret) == old(cntTr(vm, cfIdx(vm))) + ite(old(vm.bytecode) != nil, 1, 0)
   ensures frames: forall j int :: 0 <= j && j < old(cfIdx(vm)) && old(inclFrame(vm, j)) ==> elem(*ret, old(cntTr(vm, j))).LineNumber == old(frameLine(&vm.callFrames[j])) && elem(*ret, old(cntTr(vm, j))).TailCallCounter == old(elem(vm.callFrames, j).tailCallCounter)
